@@ -67,6 +67,29 @@ def poly_selects(dim, order):
     return out
 
 
+def s_unb(spec):
+    v = spec["variant"]
+    return bool(spec.get("unbiased", True)) if v == "Krige" else v in ("Ordinary", "Universal", "ExtDrift")
+
+
+def s_fdrift(spec):
+    """functional drift spec (None | list of names | "linear" | "quadratic" | int)"""
+    return spec.get("drift") if spec["variant"] in ("Universal", "Krige") else None
+
+
+def s_ext(spec):
+    """names of the external drifts (possibly empty)"""
+    return (spec.get("ext_drift") or []) if spec["variant"] in ("ExtDrift", "Krige") else []
+
+
+def s_mean(spec):
+    return spec.get("mean") if spec["variant"] in ("Simple", "Krige") else None
+
+
+def s_nz(spec):
+    return spec.get("normalizer") if spec["variant"] != "Detrended" else None
+
+
 def build_model(ms):
     import gstools as gs
     kw = dict(ms["kw"])
@@ -140,7 +163,7 @@ def expand_pos(spec):
 
 
 def ext_drift_at(spec, pos):
-    ed = spec.get("ext_drift")
+    ed = s_ext(spec)
     if not ed:
         return None
     return np.array([np.broadcast_to(EDFUNCS[e](*pos), (pos.shape[1],)) for e in ed], dtype=float)
@@ -172,11 +195,13 @@ def krige_kwargs(spec, capture=None):
         kw["trend"] = fobj(spec.get("trend"))
     else:
         kw["trend"] = fobj(spec.get("trend"))
-    if v == "Simple":
+    if v in ("Simple", "Krige"):
         kw["mean"] = fobj(spec.get("mean"))
-    if v == "Universal":
+    if v == "Universal" or (v == "Krige" and spec.get("drift") is not None):
         d = spec["drift"]
         kw["drift_functions"] = [DRIFTS[x] for x in d] if isinstance(d, list) else d
+    if v == "Krige":
+        kw["unbiased"] = s_unb(spec)
     return kw
 
 
@@ -190,6 +215,8 @@ def build_krige(spec, capture=None, cond_val=None, cond_pos=None):
     cls = getattr(gs.krige, v)
     if v == "ExtDrift":
         return cls(model, cp, cv, ext_drift_at(spec, cp), **kw)
+    if v == "Krige":       # the base class with every option combination
+        return cls(model, cp, cv, ext_drift=ext_drift_at(spec, cp), **kw)
     if v == "Detrended":
         tr = kw.pop("trend")
         return cls(model, cp, cv, tr, **kw)
@@ -207,7 +234,7 @@ def call_krige(kr, spec, pos=None, **kw):
         mt = "unstructured"
         full = p
     args = dict(mesh_type=mt, chunk_size=spec.get("chunk_size"))
-    if spec["variant"] == "ExtDrift":
+    if s_ext(spec):
         args["ext_drift"] = ext_drift_at(spec, full)
     args.update(kw)
     return kr(p, **args)
@@ -266,9 +293,9 @@ def textbook(spec, cond_val=None, Y=None):
     Y = expand_pos(spec) if Y is None else np.asarray(Y, dtype=float)
     m = Y.shape[1]
     v = spec["variant"]
-    unb = v in ("Ordinary", "Universal", "ExtDrift")
+    unb = s_unb(spec)
     F, G = [], []
-    if v == "Universal":
+    if s_fdrift(spec) is not None:
         d = spec["drift"]
         if isinstance(d, list):
             fs = [DRIFTS[x] for x in d]
@@ -278,7 +305,7 @@ def textbook(spec, cond_val=None, Y=None):
         for f in fs:      # drift functions are functions of the POINT: same value for lon and lon + 360
             F.append(np.broadcast_to(f(*canon(model, X)), (n,)))
             G.append(np.broadcast_to(f(*canon(model, Y)), (m,)))
-    if v == "ExtDrift":
+    if s_ext(spec):
         F += list(ext_drift_at(spec, X))
         G += list(ext_drift_at(spec, Y))
     u = 1 if unb else 0
@@ -295,8 +322,8 @@ def textbook(spec, cond_val=None, Y=None):
     for l, (f, g) in enumerate(zip(F, G)):
         K[n + u + l, :n] = K[:n, n + u + l] = f
         k[n + u + l] = g
-    nz = spec.get("normalizer") if v != "Detrended" else None
-    mean = spec.get("mean") if v == "Simple" else None
+    nz = s_nz(spec)
+    mean = s_mean(spec)
     trend = spec.get("trend")
     d = np.zeros(N)
     d[:n] = norm_fwd(nz, val - fval(trend, X, n)) - fval(mean, X, n)
@@ -316,9 +343,26 @@ def textbook(spec, cond_val=None, Y=None):
     # carries an absolute error of order eps*var) propagated through |K^-1|
     ainv = np.abs(np.linalg.inv(K))
     dk = 1e3 * EPS * model.sill
-    out["tf"] = tol_solve(cond, out["sfield"]) + dk * float((np.abs(d) @ ainv).sum())
-    out["tv"] = tol_solve(cond, out["serr"]) + 2 * dk * np.abs(lam).sum(axis=0)
+    out["tf"] = tol_field(cond, d, lam, raw) + dk * float((np.abs(d) @ ainv).sum())
+    out["tv"] = tol_err(cond, k, lam, model.sill) + 2 * dk * np.abs(lam).sum(axis=0)
     return out
+
+
+def tol_field(cond, d, lam, raw):
+    """threshold for an estimate d^T lambda_t whose weights come from two different LAPACK solves:
+    the solver error of lambda_t is NORM-wise, |delta lambda_t| <~ cond*eps*||lambda_t||_2 in every component, so its
+    effect on the estimate is bounded by cond*eps*||d||_2*||lambda_t||_2 (not by the component-wise |d|^T|lambda_t|,
+    which collapses when a large datum meets a small weight); 1e3 safety.  Plus 1e-9 relative evaluation noise of the
+    independently computed covariances against the accumulated magnitudes."""
+    lam2 = np.sqrt((np.asarray(lam) ** 2).sum(axis=0))
+    return 1e3 * cond * EPS * (np.linalg.norm(d) * lam2 + np.abs(raw)) + 1e-9 * (np.abs(d) @ np.abs(lam) + np.abs(raw)) + 1e-300
+
+
+def tol_err(cond, k, lam, sill):
+    """the same for the error term k_t^T lambda_t (and the variance sill - k^T lambda)"""
+    lam2 = np.sqrt((np.asarray(lam) ** 2).sum(axis=0))
+    k2 = np.sqrt((np.asarray(k) ** 2).sum(axis=0))
+    return 1e3 * cond * EPS * (k2 * lam2 + sill) + 1e-9 * (np.einsum("it,it->t", np.abs(k), np.abs(lam)) + sill) + 1e-300
 
 
 def tol_solve(cond, scale):
@@ -377,7 +421,7 @@ def data_args(kr, spec, Y):
     code, lam = norm_code(nz)
     ctr = np.broadcast_to(np.asarray(kr.cond_trend, dtype=float), (n,)).copy()
     cmn = np.broadcast_to(np.asarray(kr.cond_mean, dtype=float), (n,)).copy()
-    tmn = fval(spec.get("mean") if v == "Simple" else None, Y, m)
+    tmn = fval(s_mean(spec), Y, m)
     ttr = fval(spec.get("trend"), Y, m)
     return [code, lam, np.asarray(kr.cond_val, dtype=float), ctr, cmn, tmn, ttr]
 
@@ -470,7 +514,9 @@ def _gen_points(rng, geo, fd, n, lon360=False):
 
 
 def gen_spec(rng, variant=None, geo=None, dim=None, n=None, m=None, allow_norm=True, tier="quick", classes=None,
-             exact=None, nugget=None, norm_prob=0.35, mean_nonzero=False, geom_mode=None, drift_mode=None, var_scale=None):
+             exact=None, nugget=None, norm_prob=0.35, mean_nonzero=False, geom_mode=None, drift_mode=None, var_scale=None, cell=None):
+    """cell = (functional drift kind 0..3: none / "linear" / "quadratic" / callables, number of external drifts 0..2,
+    unbiased) for variant "Krige": the base class with its option combinations"""
     variant = variant or str(rng.choice(VARIANTS))
     if var_scale is not None:
         allow_norm = False
@@ -491,9 +537,15 @@ def gen_spec(rng, variant=None, geo=None, dim=None, n=None, m=None, allow_norm=T
             spec["drift"] = "linear"
     if variant == "ExtDrift":
         spec["ext_drift"] = ["ed1"] if rng.random() < 0.6 else ["ed1", "ed2"]
+    if variant == "Krige":
+        dk_, ne_, ub_ = cell if cell is not None else (int(rng.integers(4)), int(rng.integers(3)), bool(rng.integers(2)))
+        quad_ok = fd <= 2 and geo != "latlon_time"
+        spec["drift"] = [None, "linear", "quadratic" if quad_ok else 1, ["x0"] if fd == 1 else ["x0", "sq"]][dk_]
+        spec["ext_drift"] = [[], ["ed1"], ["ed1", "ed2"]][ne_]
+        spec["unbiased"] = bool(ub_)
     p = (len(spec["drift"]) if isinstance(spec.get("drift"), list) else 0) + len(spec.get("ext_drift", []))
-    if variant == "Universal" and not isinstance(spec["drift"], list):
-        p = len(poly_selects(fd, drift_order(spec["drift"])))
+    if spec.get("drift") is not None and not isinstance(spec["drift"], list):
+        p += len(poly_selects(fd, drift_order(spec["drift"])))
     n = max(n, p + 2 + (2 if p > 4 else 0))
     lon360 = bool(rng.random() < 0.4)
     spec["cond_pos"] = gen_points(rng, geo, fd, n, lon360=lon360)
@@ -501,7 +553,7 @@ def gen_spec(rng, variant=None, geo=None, dim=None, n=None, m=None, allow_norm=T
     nz = None
     if allow_norm and variant != "Detrended" and rng.random() < norm_prob:
         nz = ["LogNormal"] if rng.random() < 0.5 else ["BoxCox", float(rng.choice([0.5, 2.0, -0.5]))]
-    if variant == "Simple":
+    if variant in ("Simple", "Krige"):
         spec["mean"] = [None, 0.0, float(np.round(rng.normal(), 3)), "lin"][int(rng.integers(4))]
         if nz is not None:
             spec["mean"] = [None, 0.0, 0.3][int(rng.integers(3))]
@@ -624,7 +676,7 @@ def correspond_case(ctx, drv, spec, stats, what="all"):
         if not C.bit_equal(mats[-1], Km):
             bad("krige_matrix", "assembled kriging matrix differs from the model", impl=mats[-1], model=Km)
     # polynomial drift basis (get_drift_functions / _f_factory) vs the model's documented monomial basis
-    if spec["variant"] == "Universal" and not isinstance(spec.get("drift"), list):
+    if s_fdrift(spec) is not None and not isinstance(spec.get("drift"), list):
         order = drift_order(spec["drift"])
         fd_ = int(np.shape(kr.cond_pos)[0])
         for what_, P, impl_rows in (("conditioning points", kr.model.anisometrize(kr._krige_pos), sa[7]),):
@@ -663,7 +715,7 @@ def correspond_case(ctx, drv, spec, stats, what="all"):
     # right-hand sides, chunk by chunk as the implementation cuts them
     iso_pos, shape = kr.pre_pos([np.asarray(a, dtype=float) for a in spec["pos"]], spec.get("mesh_type", "unstructured"))
     m = iso_pos.shape[1]
-    ed = ext_drift_at(spec, Y) if spec["variant"] == "ExtDrift" else None
+    ed = ext_drift_at(spec, Y) if s_ext(spec) else None
     edp = kr._pre_ext_drift(m, ed)
     ta = tgt_args(kr, iso_pos, ed)
     cs = spec.get("chunk_size") or m
@@ -723,8 +775,8 @@ def correspond_case(ctx, drv, spec, stats, what="all"):
         bad("field(return_var=False)", "field without variance differs from the model", impl=f2, model=f2m)
     if not C.bit_equal(f2, f_i):
         bad("field(return_var=False) vs field", "the two kernels give different fields", a=f2, b=f_i)
-    mean_callable = isinstance(spec.get("mean"), str) and spec["variant"] == "Simple"
-    mval = 0.0 if (spec.get("mean") is None or mean_callable or spec["variant"] != "Simple") else float(spec["mean"])
+    mean_callable = isinstance(s_mean(spec), str)
+    mval = 0.0 if (s_mean(spec) is None or mean_callable) else float(s_mean(spec))
     for post in (True, False):
         graw = kr.get_mean(post_process=False)
         if post and graw is not None and not bool(in_range(nz, graw + mval)):
@@ -905,7 +957,7 @@ def probe_metamorphic(ctx, rng, spec, stats, tb):
     tv = tb["tv"]
     # ---- lat-lon: the same points given with longitude + 360 (callable mean / trend excluded: user functions of lon)
     if (spec.get("geo") in ("latlon", "latlon_time") and not isinstance(spec.get("trend"), str)
-            and not isinstance(spec.get("mean"), str) and v != "ExtDrift"):
+            and not isinstance(spec.get("mean"), str) and not s_ext(spec)):
         sh = lambda P: [list(P[0]), [x + 360.0 for x in P[1]]] + [list(r) for r in P[2:]]
         s2 = dict(spec, cond_pos=sh(spec["cond_pos"]), pos=sh(spec["pos"]))
         _, f2, v2, fr2 = impl_results(s2)
@@ -930,7 +982,7 @@ def probe_metamorphic(ctx, rng, spec, stats, tb):
     # ---- NaN conditioning values are ignored
     # (not for ExtDrift: the external drift array is not filtered together with the values, gstools raises
     #  "wrong number of ext. drifts" -- an input-format limitation, no wrong estimate; see design/C05.md)
-    if n > tb["N"] - n + 3 and not isinstance(spec.get("cond_err"), list) and v != "ExtDrift":
+    if n > tb["N"] - n + 3 and not isinstance(spec.get("cond_err"), list) and not s_ext(spec):
         drop = int(rng.integers(n))
         cv = list(spec["cond_val"])
         cv[drop] = float("nan")
@@ -958,7 +1010,7 @@ def probe_metamorphic(ctx, rng, spec, stats, tb):
             r.append((frx.reshape(-1), np.abs(np.asarray(k_._krige_cond))))
         Ki = np.abs(np.asarray(kr._krige_mat))
         iso_pos, _ = kr.pre_pos([np.asarray(a_, dtype=float) for a_ in spec["pos"]], spec.get("mesh_type", "unstructured"))
-        kk = np.abs(kr._get_krige_vecs(iso_pos, (0, m), kr._pre_ext_drift(m, ext_drift_at(spec, Y) if v == "ExtDrift" else None), False))
+        kk = np.abs(kr._get_krige_vecs(iso_pos, (0, m), kr._pre_ext_drift(m, ext_drift_at(spec, Y) if s_ext(spec) else None), False))
         sc = (abs(a) * r[0][1] + abs(b) * r[1][1] + r[2][1]) @ (Ki @ kk)
         ctx.count(None, hist=dict(probe="linearity"))
         dev = np.abs(r[2][0] - (a * r[0][0] + b * r[1][0]))
@@ -969,26 +1021,30 @@ def probe_metamorphic(ctx, rng, spec, stats, tb):
                   "linearity", a=a, b=b, v2=v2_, dev=dev, tol=tl)
     # ---- unbiased variants reproduce constants (through trend and normalizer) and their drifts
     lam1 = np.abs(tb["lam"][:n]).sum(axis=0)
-    if v in ("Ordinary", "Universal", "ExtDrift"):
+    if s_unb(spec):
         c = float(np.round(rng.uniform(0.5, 3.0), 3))
-        vals = c + fval(tb["trend"], tb["X"], n)
+        # prepared data = nr(val - trend) - mean: without normalizer the (possibly callable) mean is added to the data so that
+        # the PREPARED data are the constant; with a normalizer the mean is a constant and cancels in the round trip
+        mX = fval(tb["mean"], tb["X"], n) if nz is None else 0.0
+        mY = fval(tb["mean"], tb["Y"], m) if nz is None else 0.0
+        vals = c + fval(tb["trend"], tb["X"], n) + mX
         _, fc, vc, _ = impl_results(spec, cond_val=vals)
         y = float(norm_fwd(nz, np.array([c]))[0])
-        t0 = 1e3 * tb["cond"] * EPS * (abs(y) * (1 + lam1)) + 1e-12
-        exp = c + fval(tb["trend"], tb["Y"], m)
+        t0 = 1e3 * tb["cond"] * EPS * ((abs(y) + np.abs(mX).max() if nz is None else abs(y)) * (1 + lam1)) + 1e-12
+        exp = c + fval(tb["trend"], tb["Y"], m) + mY
         tp = post_tol(nz, np.full(m, y), t0) + 1e-9 * np.abs(exp)
         ctx.count(None, hist=dict(probe="constants"))
         if not np.all(np.abs(fc.reshape(-1) - exp) <= tp):
             _viol(ctx, "constants", "constant data %g are not reproduced by the unbiased estimator (max dev %.3g)" % (
                 c, np.abs(fc.reshape(-1) - exp).max()), dict(spec, cond_val=list(map(float, vals))), "constants", impl=fc, expected=exp)
-    if v in ("Universal", "ExtDrift") and nz is None:
-        u = 1
+    if tb["N"] - n - (1 if s_unb(spec) else 0) > 0 and nz is None:
+        u = 1 if s_unb(spec) else 0
         for l in range(tb["N"] - n - u):
             fl = tb["K"][n + u + l, :n]
             gl = tb["k"][n + u + l]
-            vals = fl + fval(tb["trend"], tb["X"], n)
+            vals = fl + fval(tb["trend"], tb["X"], n) + fval(tb["mean"], tb["X"], n)
             _, fd, _, _ = impl_results(spec, cond_val=vals)
-            exp = gl + fval(tb["trend"], tb["Y"], m)
+            exp = gl + fval(tb["trend"], tb["Y"], m) + fval(tb["mean"], tb["Y"], m)
             t0 = 1e3 * tb["cond"] * EPS * (np.abs(fl).max() * (1 + lam1) + np.abs(gl)) + 1e-12
             ctx.count(None, hist=dict(probe="drifts"))
             if not np.all(np.abs(fd.reshape(-1) - exp) <= t0 + 1e-9 * np.abs(exp)):
@@ -1034,7 +1090,7 @@ def probe_var_bounds(ctx, spec, stats):
     sill = float(kr.model.sill)
     if not np.all(v >= 0):
         _viol(ctx, "variance_nonneg", "negative kriging variance", spec, "var:negative", impl=v)
-    if spec["variant"] in ("Simple", "Detrended"):
+    if not s_unb(spec) and s_fdrift(spec) is None and not s_ext(spec):
         tb = textbook(spec)
         if tb.get("singular") or tb["cond"] > COND_MAX:
             stats["excluded_singular"] = stats.get("excluded_singular", 0) + 1
@@ -1083,7 +1139,8 @@ def probe_duplicates(ctx, rng, spec, stats):
     # round-off of the constructed merged datum / duplicate value at the magnitude of the RAW values (rep_noise)
     vmag = np.abs(val).copy()
     vmag[a] = max(abs(val[a]), abs(other), abs(merged_val))
-    tf = 10 * tol_solve(tbm["cond"], tbm2["sfield"] + np.abs(tbm["lam"][a]) * (abs(pa) + abs(pb))) + rep_noise(tbm, vmag)
+    d_dup = np.concatenate([tbm2["d"], [abs(pa) + abs(pb)]])       # prepared data of the duplicated system (magnitudes)
+    tf = 10 * tol_field(tbm["cond"], d_dup, np.concatenate([tbm["lam"], tbm["lam"][a:a + 1]]), tbm2["raw"]) + rep_noise(tbm, vmag)
     tv = 10 * tbm2["tv"]
     df_, dv_ = np.abs(frd.reshape(-1) - frm.reshape(-1)), np.abs(vd.reshape(-1) - vmr.reshape(-1))
     if not np.all(df_ <= tf):
@@ -1128,12 +1185,84 @@ def probe_update_sequence(ctx, rng, spec, stats, zero_error=False):
         others.append("nugget")
     if not cur.get("exact") and not zero_error:
         others.append("cond_err")
-    if v == "Universal":
+    if s_fdrift(cur) is not None:
         others.append("drift")
+    others += ["trend", "reassign"]
+    if v in ("Simple", "Krige"):
+        others.append("mean")
+    if v != "Detrended":
+        others.append("normalizer")
+    if geo in ("latlon", "latlon_time"):
+        geom.append("geoscale")
     k = int(rng.integers(3, 6))
     picks = [str(rng.choice(geom))] + [str(x) for x in rng.choice(geom + others, size=k - 1)]
     order = rng.permutation(len(picks))
     steps = []
+    state = dict(last=None, last_args=None)
+
+    def observe():
+        """a call on the updated object -- targets: the spec's, new ones, a set CLOSE to the previous one (relative shift
+        3e-6: numpy.allclose calls them equal), or the stored positions; return_var True / False -- compared with the
+        same call on a fresh object built from the present settings (bit-equal), and krige.pos with the requested targets"""
+        mode = int(rng.integers(4 if state["last"] is not None else 3))
+        rv = bool(rng.integers(2))
+        if mode == 0:
+            pos_arg, mt, full = [np.asarray(a, dtype=float) for a in cur["pos"]], cur.get("mesh_type", "unstructured"), expand_pos(cur)
+        elif mode == 1:
+            full = np.asarray(gen_points(rng, geo, fd, int(rng.integers(1, 7))), dtype=float)
+            pos_arg, mt = full, "unstructured"
+        elif mode == 2:
+            base = state["last"] if state["last"] is not None else expand_pos(cur)
+            full = np.array(base, dtype=float) * (1.0 + 3e-6)
+            pos_arg, mt = full, "unstructured"
+        else:
+            pos_arg, mt, full = None, None, state["last"]
+        args = dict(chunk_size=cur.get("chunk_size"), return_var=rv)
+        if s_ext(cur):
+            args["ext_drift"] = ext_drift_at(cur, full)
+        r1 = kr(pos_arg, **(args if mt is None else dict(args, mesh_type=mt)))
+        if pos_arg is not None:
+            state["last"], state["last_args"] = full, (pos_arg, mt)
+        fp, fmt = state["last_args"]
+        fresh = build_krige(cur)
+        r2 = fresh(fp, mesh_type=fmt, **args)
+        name = "call[%s,return_var=%s]" % (["spec targets", "new targets", "close targets", "stored positions"][mode], rv)
+        steps.append(name)
+        r1 = r1 if isinstance(r1, tuple) else (r1,)
+        r2 = r2 if isinstance(r2, tuple) else (r2,)
+        same = len(r1) == len(r2) and all(C.bit_equal(np.ravel(a), np.ravel(b)) for a, b in zip(r1, r2))
+        p1 = np.concatenate([np.ravel(a) for a in kr.pos]) if kr.pos is not None else np.zeros(0)
+        p2 = np.concatenate([np.ravel(a) for a in fresh.pos])
+        pos_ok = p1.shape == p2.shape and bool(np.all(p1 == p2)) and kr.mesh_type == fresh.mesh_type
+        if same and pos_ok:
+            return False
+        with np.errstate(all="ignore"):
+            dv = max(float(np.nanmax(np.abs(np.ravel(a) - np.ravel(b)))) if np.size(a) == np.size(b) and np.size(a) else float("nan")
+                     for a, b in zip(r1, r2))
+        _viol(ctx, "history", "after the history [%s] the object %s (max deviation %.3g)" % (
+            "; ".join(steps), "returns something else than a fresh object with the present settings" if not same
+            else "stores positions (krige.pos) that are not the requested targets", dv),
+            dict(cur, history=list(steps), initial=jsonable(spec), targets=[list(map(float, r)) for r in full]), "history",
+            updated=np.ravel(r1[0]), fresh=np.ravel(r2[0]), pos_updated=p1, pos_requested=p2)
+        return True
+
+    try:
+        if _run_history(rng, kr, cur, picks, order, steps, geo, v, fd, n, dim, sdim, plain, zero_error, observe):
+            return
+    except np.linalg.LinAlgError:
+        if cur.get("pseudo_inv", True):
+            raise
+        # scipy.linalg.inv refuses an exactly singular intermediate system (pseudo_inv=False): documented behaviour
+        stats["history_singular_inv"] = stats.get("history_singular_inv", 0) + 1
+        return
+    final = cur
+    return _finish_history(ctx, spec, kr, final, steps, stats, zero_error)
+
+
+def _run_history(rng, kr, cur, picks, order, steps, geo, v, fd, n, dim, sdim, plain, zero_error, observe):
+    """returns True when an observation already recorded a violation"""
+    if observe():
+        return True
     for idx in order:
         st = picks[idx]
         kw = cur["model"]["kw"]
@@ -1180,7 +1309,7 @@ def probe_update_sequence(ctx, rng, spec, stats, zero_error=False):
             nX = np.asarray(nx, dtype=float)
             nv = _new_values(rng, cur, nX)
             args = dict(cond_pos=nX, cond_val=np.array(nv))
-            if v == "ExtDrift":
+            if s_ext(cur):
                 args["ext_drift"] = ext_drift_at(cur, nX)
             kr.set_condition(**args)
             cur["cond_pos"], cur["cond_val"] = nx, nv
@@ -1190,13 +1319,52 @@ def probe_update_sequence(ctx, rng, spec, stats, zero_error=False):
             kr.set_condition(cond_err=np.array(ce) if isinstance(ce, list) else ce)
             cur["cond_err"] = ce
         elif st == "drift":
-            opts = [["x0"], "linear", 1] + (["quadratic", 2] if n >= len(poly_selects(fd, 2)) + 4 and geo != "latlon_time" else [])
+            # only drift bases the n points can determine (number of functions + 1 <= n - 2)
+            ne_ = len(s_ext(cur))
+            opts = [["x0"]] + (["linear", 1] if n >= fd + 3 + ne_ else []) + (
+                ["quadratic", 2] if n >= len(poly_selects(fd, 2)) + 4 + ne_ and geo != "latlon_time" else [])
             d = opts[int(rng.integers(len(opts)))]
             kr.set_drift_functions([DRIFTS[x] for x in d] if isinstance(d, list) else d)
             kr.set_condition()
             cur["drift"] = d
+        elif st == "mean":
+            nzc = s_nz(cur)
+            x = ([None, 0.0, 0.3, -0.2] if nzc is not None else [None, 0.0, float(np.round(rng.normal(), 3)), "lin", "quad"])
+            x = x[int(rng.integers(len(x)))]
+            kr.mean = fobj(x)
+            cur["mean"] = x
+        elif st == "trend":
+            vals_ = np.asarray(cur["cond_val"], dtype=float)
+            if s_nz(cur) is not None:
+                x = float(np.round(vals_.min() - rng.uniform(0.6, 1.5), 3))     # keeps val - trend inside the normalize range
+            else:
+                x = ([float(np.round(rng.normal(), 3)), "quad", "sin", "lin"] + ([None] if v != "Detrended" else []))
+                x = x[int(rng.integers(len(x)))]
+            kr.trend = fobj(x)
+            cur["trend"] = x
+        elif st == "normalizer":
+            vals_ = np.asarray(cur["cond_val"], dtype=float) - fval(cur.get("trend"), X, n)
+            ok_ = bool(vals_.min() > 0.3) and not isinstance(s_mean(cur), str)
+            x = [None, ["LogNormal"], ["BoxCox", 0.5]][int(rng.integers(3))] if ok_ else None
+            kr.normalizer = build_normalizer(x)
+            cur["normalizer"] = x
+        elif st == "reassign":
+            x = float(np.round(kw["len_scale"] * rng.uniform(0.6, 1.6), 4))
+            kr.model.len_scale = x          # in-place edit ...
+            kw["len_scale"] = x
+            kr.model = kr.model             # ... and the same object assigned again
+        elif st == "geoscale":
+            ms = jsonable(cur["model"])
+            ms["kw"]["geo_scale"] = float(np.round(kw["geo_scale"] * rng.choice([0.5, 2.0, 1.7]), 6))
+            kr.model = build_model(ms)      # a model that differs in geo_scale only
+            cur["model"] = ms
         steps.append(st)
-    final = cur
+        if observe():
+            return True
+    return False
+
+
+def _finish_history(ctx, spec, kr, final, steps, stats, zero_error):
     f1, v1 = call_krige(kr, final)
     f1, v1 = np.asarray(f1, dtype=float), np.asarray(v1, dtype=float)
     fresh = build_krige(final)
@@ -1222,7 +1390,10 @@ def probe_update_sequence(ctx, rng, spec, stats, zero_error=False):
                   (hist,) + _worst(np.abs(fr1 - tb["raw"]), tf) + _worst(np.abs(v1.reshape(-1) - tb["var"]), tv) + (tb["cond"],)),
               case_spec, "update_sequence:textbook", updated=fr1, expected=tb["raw"])
     if zero_error:
-        probe_exact_at_data(ctx, final, stats, kr=kr, label="exact_after_update", extra=dict(history=steps))
+        # a call on points next to the data (relative shift 3e-6) directly before the call AT the data
+        near = np.asarray(final["cond_pos"], dtype=float) * (1.0 + 3e-6)
+        call_krige(kr, final, pos=near)
+        probe_exact_at_data(ctx, final, stats, kr=kr, label="exact_after_update", extra=dict(history=steps + ["call[next to the data]"]))
 
 
 # --------------------------------------------------------------------------- ill-conditioned layouts, replicates, auto-fit
